@@ -55,18 +55,14 @@ def run(repo: Repo) -> Result:
         res.add("C14-CHAIN", init.qual, f"scope={text(chain) if chain is not None else None}", "RenderContext.scope must be ReadOnlyChainMap(self.locals, self.globals, builtin, self.counters)", init.file, init.line)
     # globals param -> self.globals
     res.ob(init.qual + ":globals")
-    g_ok = any(
-        (isinstance(st, (ast.Assign, ast.AnnAssign)))
-        and is_self_attr(st.targets[0] if isinstance(st, ast.Assign) else st.target, "globals")
-        and (
-            is_name(st.value, "globals")
-            or (isinstance(st.value, ast.BoolOp) and isinstance(st.value.op, ast.Or) and is_name(st.value.values[0], "globals") and all(isinstance(x, ast.Dict) and not x.keys for x in st.value.values[1:]))
-            or (isinstance(st.value, ast.IfExp) and is_name(st.value.body, "globals") and isinstance(st.value.orelse, ast.Dict) and not st.value.orelse.keys and names_in(st.value.test) == {"globals"})
-        )
-        for st in walk_no_nested(init.node)
-    )
-    if not g_ok:
-        res.add("C14-CHAIN", init.qual, "self.globals", "RenderContext.globals must be the globals argument", init.file, init.line)
+    # by reference whenever a mapping is given: the render tag fills the (still empty, hence
+    # falsy) chain map it passed to copy() afterwards — `globals or {}` would drop the innermost
+    # binding of `render ... for xs as x` (rule shared with C15-INIT)
+    from .c15 import globals_by_reference
+
+    bad = globals_by_reference(repo)
+    if bad is not None:
+        res.add("C14-CHAIN", init.qual, "self.globals", f"RenderContext.globals must be the globals argument itself whenever one is given; `self.globals = {bad[0]}` replaces an empty mapping (the namespace the render tag fills after copying the context) by a new object: the variable bound by `render 'p' for xs as x` resolves to undefined inside the partial", init.file, bad[1])
     mg = repo.own_method("liquid.template.BoundTemplate", "make_globals")
     res.ob(mg.qual)
     rets = [s for s in walk_no_nested(mg.node) if isinstance(s, ast.Return)]
